@@ -412,7 +412,11 @@ func c12Shape(v reflect.Value, cls string) string {
 		cp.Set(v)
 		cp.Field(i).Set(reflect.Zero(v.Type().Field(i).Type))
 		if c12CheckValue(cp) != cls {
-			culprits = append(culprits, c12ShapeVal(v.Field(i)))
+			sh := c12ShapeVal(v.Field(i))
+			if v.Type().Field(i).Anonymous {
+				sh = "embedded:" + sh
+			}
+			culprits = append(culprits, sh)
 		}
 	}
 	sort.Strings(culprits)
@@ -494,7 +498,7 @@ func c12WitnessValue(name string) (any, bool) {
 		var a any = 5
 		return &a, true
 	}
-	return nil, false
+	return c12EmbedWitness(name) // c12_nembed.go
 }
 
 var c12Witnesses = []string{"ptr-to-map", "ptr-to-slice-field", "inner-nil", "outer-nil-deep", "nil-above-nil", "ptr3",
@@ -879,7 +883,7 @@ func runC12(ctx *vh.Ctx) error {
 	}
 	// fixed corpus first
 	var corpus []c12Recipe
-	for _, w := range c12Witnesses {
+	for _, w := range append(append([]string{}, c12Witnesses...), c12EmbedWitnesses...) {
 		corpus = append(corpus, c12Recipe{Witness: w})
 	}
 	if err := c12RunBatch(ctx, corpus); err != nil {
